@@ -9,7 +9,7 @@ from hypothesis import strategies as st
 
 from tcv import build, crash, engine, gen, hyp, model
 from tcv.hyp import Finding, Violation
-from tcv.runtime import RT, InjectedFault, digest_of
+from tcv.runtime import RT, InjectedFault, InjectedInterrupt, digest_of
 
 LEVEL = 'fault_enumeration'
 RULE = (
@@ -42,7 +42,19 @@ ASSUMPTIONS = [
 ]
 
 KINDS = ['dict', 'list', 'numpy', 'frame', 'generator', 'lazy', 'list_numpy', 'dir', 'continues']
-RAISED = ['raise-pre', 'raise-mid', 'gen-mid', 'mistyped', 'unserializable']
+RAISED = ['raise-pre', 'raise-mid', 'gen-mid', 'mistyped', 'unserializable', 'interrupt-pre', 'interrupt-mid']
+
+
+def arm(fault):
+    """Arm one raised fault for the next run of g:a.  interrupt-* raise a KeyboardInterrupt subclass (what Ctrl-C or a
+    notebook's kernel interrupt raises inside run): a failure of run that is not an `Exception`."""
+    if fault == 'raise-pre':
+        RT.fail['g:a'] = 1
+    elif fault == 'interrupt-pre':
+        RT.fail['g:a'] = -1
+    else:
+        RT.special['g:a'] = {'raise-mid': 'mid', 'interrupt-mid': 'imid'}.get(fault, fault)
+
 
 
 def program(kind):
@@ -186,17 +198,14 @@ def eval_raised(case_spec, rec):
             with hyp.quiet_output():
                 _ = ch['b'].value
             ch = probe.chain(data)
-            ch['g:a'].force()
+            ch.force(['g:a'])  # g:a and its dependant b: requesting b then recomputes g:a over its stored result
         a = ch['g:a']
-        if fault == 'raise-pre':
-            RT.fail['g:a'] = 1
-        else:
-            RT.special['g:a'] = {'raise-mid': 'mid'}.get(fault, fault)
+        arm(fault)
         fired = None
         try:
             with hyp.quiet_output():
                 _ = ch['b'].value
-        except Exception as e:
+        except (Exception, InjectedInterrupt) as e:
             fired = e
         if fired is None:
             # the fault does not apply to this kind (e.g. gen-mid for a dict): nothing to check
@@ -206,30 +215,27 @@ def eval_raised(case_spec, rec):
         try:
             key = mt['g:a'].key
             adir = data / 'g' / 'a'
-            if kind == 'dir' and fault in ('raise-pre', 'raise-mid', 'mistyped'):
+            if kind == 'dir' and fault in ('raise-pre', 'raise-mid', 'mistyped', 'interrupt-pre', 'interrupt-mid'):
                 if not (adir / f'{key}_error').exists():
                     raise Violation('failed-work-directory-not-set-aside', dict(info, listing=listing(data)))
                 if scenario == 'first' and (adir / key).exists():
                     raise Violation('failed-directory-result-visible', dict(info, listing=listing(data)))
-            if kind == 'continues' and fault == 'raise-mid':
+            if kind == 'continues' and fault in ('raise-mid', 'interrupt-mid'):
                 if not (adir / f'{key}_tmp' / 'v.txt').exists():
                     raise Violation('resumable-work-directory-lost', dict(info, listing=listing(data)))
                 if scenario == 'first' and (adir / key).exists():
                     raise Violation('unfinished-resumable-result-visible', dict(info, listing=listing(data)))
             # a second failure of the same kind right away: the error of run must propagate again (not some other
             # error from the clean-up of the first failure), and a later request still recovers
-            if fault in ('raise-pre', 'raise-mid', 'gen-mid'):
-                if fault == 'raise-pre':
-                    RT.fail['g:a'] = 1
-                else:
-                    RT.special['g:a'] = {'raise-mid': 'mid'}.get(fault, fault)
+            if fault in ('raise-pre', 'raise-mid', 'gen-mid', 'interrupt-pre', 'interrupt-mid'):
+                arm(fault)
                 second = None
                 try:
                     with hyp.quiet_output():
                         _ = a.value
-                except Exception as e:
+                except (Exception, InjectedInterrupt) as e:
                     second = e
-                if not isinstance(second, InjectedFault):
+                if not isinstance(second, (InjectedFault, InjectedInterrupt)):
                     raise Violation('second-failure-did-not-propagate-the-run-error', dict(info, error=repr(second)[:300]))
             # same chain: requesting again recovers
             RT.fail.clear()
@@ -242,7 +248,7 @@ def eval_raised(case_spec, rec):
                 raise Violation('retry-in-same-chain-raised', dict(info, error=repr(e)[:300]))
             if got != mt['g:a'].value or gotb != mt['b'].value:
                 raise Violation('retry-in-same-chain-wrong-value', dict(info, got=got, want=mt['g:a'].value))
-            if kind == 'continues' and fault == 'raise-mid':
+            if kind == 'continues' and fault in ('raise-mid', 'interrupt-mid'):
                 prog = (adir / key / 'progress')
                 if not prog.exists() or prog.read_text() != 'resumed':
                     raise Violation('resumable-run-did-not-see-its-work-directory', dict(info))
@@ -260,15 +266,12 @@ def eval_raised(case_spec, rec):
                 with hyp.quiet_output():
                     _ = ch['b'].value
                 ch = p2.chain(data2)
-                ch['g:a'].force()
-            if fault == 'raise-pre':
-                RT.fail['g:a'] = 1
-            else:
-                RT.special['g:a'] = {'raise-mid': 'mid'}.get(fault, fault)
+                ch.force(['g:a'])
+            arm(fault)
             try:
                 with hyp.quiet_output():
                     _ = ch['b'].value
-            except Exception:
+            except (Exception, InjectedInterrupt):
                 pass
             try:
                 p2.check_state(data2, {'after': fault})
